@@ -580,6 +580,10 @@ func (t *Task) verifyFunc(fn *ssa.Function, con *FuncContract) {
 	for i, r := range res {
 		vars[fmt.Sprintf("result_%d", i)] = r
 	}
+	for k, v := range vars {
+		// result_i are visible to ghost updates at exit (atexit) as well
+		act.lets[k] = v
+	}
 	penv := act.exprEnv(out, vars)
 	// reachability of the exit
 	cv2 := &Obligation{Name: t.curFn + caseSuffix(con) + "#cover[exit]", Kind: "cover", Fn: t.curFn, Pc: out.pc, Goal: tFalse, NAssert: len(t.asserts), task: t, Src: con.Src}
